@@ -43,6 +43,11 @@ type Probe struct {
 	Skip string                   `control:"-"`
 	M    string                   `multiline:"true"`
 	P    *version.Version
+	// skipped members of kinds the encoder has no rendering for: a skipped field is never looked at
+	SkipM map[string]int  `control:"-"`
+	SkipF float64         `control:"-"`
+	SkipS struct{ X int } `control:"-"`
+	SkipI interface{}     `control:"-"`
 }
 
 // ProbeP is the same with the raw paragraph embedded.
@@ -68,6 +73,11 @@ type ProbeP struct {
 	Skip string                   `control:"-"`
 	M    string                   `multiline:"true"`
 	P    *version.Version
+	// skipped members of kinds the encoder has no rendering for: a skipped field is never looked at
+	SkipM map[string]int  `control:"-"`
+	SkipF float64         `control:"-"`
+	SkipS struct{ X int } `control:"-"`
+	SkipI interface{}     `control:"-"`
 }
 
 // value alphabet: per field, index 0 is the default (zero / baseline), others are the deviations
@@ -171,7 +181,7 @@ func values(name string) []interface{} {
 	case "Skip":
 		return []interface{}{"", "zzz"}
 	case "M":
-		return []interface{}{"", "one", "one\ntwo", "one\ntwo\n", "one\n\nthree", "one\ntwo\n\n", "one\n\n\n"}
+		return []interface{}{"", "one", "one\ntwo", "one\ntwo\n", "one\n\nthree", "one\ntwo\n\n", "one\n\n\n", "Ren\xe9 M\xfcller\nRen\xe9 \xff second\nthird"}
 	case "P":
 		return []interface{}{(*version.Version)(nil), &v1}
 	}
@@ -194,6 +204,12 @@ func build(in In) interface{} {
 	for _, n := range fieldNames {
 		v := values(n)[in.Choice[n]]
 		target.FieldByName(n).Set(reflect.ValueOf(v))
+	}
+	if in.Choice["Skip"] != 0 {
+		target.FieldByName("SkipM").Set(reflect.ValueOf(map[string]int{"zzz": 1}))
+		target.FieldByName("SkipF").SetFloat(1.5)
+		target.FieldByName("SkipS").Field(0).SetInt(7)
+		target.FieldByName("SkipI").Set(reflect.ValueOf(func() {}))
 	}
 	return target.Addr().Interface()
 }
@@ -821,7 +837,7 @@ func Run(r *mc.Run) {
 	known := [][2]string{{"Known1", "k one"}, {"Known-Two", "a, b"}, {"Known-3", "1:2.0-1"}}
 	unknown := [][2]string{{"X-Extra", "u1"}, {"Zeta", "u 2"}}
 	// unknown fields whose names differ from a known key only in letter case are unknown fields all the same
-	unknownML := [][2]string{{"X-Extra", "u1\n more\n .\n last\n ."}, {"Zeta", "\n line one\n .\n .\n\tline four\n ."}}
+	unknownML := [][2]string{{"X-Extra", "u1\n more Ren\xe9 M\xfcller\n .\n last\n ."}, {"Zeta", "\n line one\n .\n .\n\tline four\n ."}}
 	unknownK := [][2]string{{"\u212anown1", "kelvin 1"}, {"\u212anown-Two", "kelvin 2"}}
 	unknownAlt := [][2]string{{"known1", "case-variant 1"}, {"KNOWN-TWO", "case-variant 2"}}
 	var docs [][][2]string
